@@ -85,6 +85,13 @@ def run(ctx, deep=False):
                 sc.append(("adv", 8))
                 items.append(("steady", sc))
                 meta.append((st, cuts))
+                if rng.random() < 0.1:
+                    # nobody is subscribed while the (segmented) stream arrives - the application's subscriber left before and comes back
+                    # after: what it is handed afterwards (the same stream once more, in one piece) does not depend on the segmentation
+                    body = [op for op in sc[2:-1]]
+                    sc3 = sc[:2] + [("adv", 8), ("msgsub", 0)] + body + [("turn", 2), ("msgsub", 1), ("peerbytes", st.hex()), ("adv", 8)]
+                    items.append(("steady", sc3))
+                    meta.append((st, ("nosub", tuple(cuts))))
                 if rng.random() < 0.15:
                     # the console closes the connection: its FIN arrives together with the last data segment, or a few loop turns / a
                     # pause later; the client reconnects and the console sends the stream again - what is delivered (both copies) does
@@ -105,7 +112,7 @@ def run(ctx, deep=False):
         for (st, cuts), r, (_, script) in zip(meta, results, items):
             if "error" in r:
                 raise RuntimeError("harness failed: %s" % r["error"])
-            ctx.case((gen, st, tuple(cuts or [])) if not (cuts and cuts[0] == "fin") else (gen, st, cuts), nontrivial=cuts is not None)
+            ctx.case((gen, st, tuple(cuts or [])) if not (cuts and cuts[0] in ("fin", "nosub")) else (gen, st, cuts), nontrivial=cuts is not None)
             if cuts is None:
                 ref[st] = r["delivered"]
                 if model:
@@ -116,6 +123,12 @@ def run(ctx, deep=False):
                         if hm != r["delivered"][0]:
                             ctx.tie_broken("correspondence:parse", "model delivers %s, implementation %s" % (hm[:300], r["delivered"][0][:300]),
                                            stream=st.hex())
+                continue
+            if cuts and cuts[0] == "nosub":
+                ctx.count("no-subscriber-while-segmented")
+                if r["delivered"] != ref[st]:
+                    if worst is None or len(script) < len(worst[0]):
+                        worst = (script, st, list(cuts[1]) + ["nobody subscribed while these segments arrived; the stream again, whole, with the subscriber back"], r["delivered"], ref[st])
                 continue
             if cuts and cuts[0] == "fin":
                 ctx.count("fin-gap:%d" % cuts[2])
